@@ -90,6 +90,9 @@ def quoted (bs : List UInt8) : List UInt8 := 34 :: bs ++ [34]
   mcql <kind> <content>                → ok <16 bytes> | err               (gocql.Marshal of a uuid column value)
   useq <prev16> <step>...              → ok:<dst>|err:<dst> per step, all on ONE destination
   rtdirty <prev16> <u16>               → u (every printer → every decoder, destination holding prev)
+  range <sa> <na> <sb> <nb> <hex16>    → incl=in|out excl=in|out: is the v1 RFC 4122 UUID selected by
+                                         [MinTimeUUID(a), MaxTimeUUID(b)] / by (MaxTimeUUID(a), MinTimeUUID(b)) under Cassandra's order
+                                         (C19_range_inclusive / C19_range_exclusive: exactly tick a ≤ ts ≤ tick b / tick a < ts < tick b)
   tsround / timeround / bound / randchk / parsechk: property oracles, see below -/
 def step (_ : Unit) (ws : List String) : Unit × String :=
   ((), match ws with
@@ -144,6 +147,15 @@ def step (_ : Unit) (ws : List String) : Unit × String :=
       | some s, some n, some u =>
         if Uuid.Spec.cassLe (Uuid.minTimeUUID s n) u && Uuid.Spec.cassLe u (Uuid.maxTimeUUID s n) then "bounded" else "NOT-BOUNDED"
       | _, _, _ => "bad-op"
+  | ["range", sa, na, sb, nb, h] => match intArg sa, natArg na, intArg sb, natArg nb, parseHex h with
+      -- C19_range_inclusive / C19_range_exclusive (the specification side: ticks and the timestamp field only)
+      | some sa, some na, some sb, some nb, some u =>
+        let ta := Uuid.tick (sa, na)
+        let tb := Uuid.tick (sb, nb)
+        let ts := Uuid.timestamp u
+        let io := fun (b : Bool) => if b then "in" else "out"
+        s!"incl={io (decide (ta ≤ ts) && decide (ts ≤ tb))} excl={io (decide (ta < ts) && decide (ts < tb))}"
+      | _, _, _, _, _ => "bad-op"
   | ["randchk", h] => match parseHex h with                             -- C19_random_v4
       | some u => s!"v={Uuid.version (Uuid.stampV4 u)} var={Uuid.variant (Uuid.stampV4 u)}"
       | none => "bad-op"
